@@ -196,7 +196,7 @@ func c08Sem(r *h.Result, rng *h.Rng, n int) error {
 	var feats [][]string
 	for i := 0; i < n; i++ {
 		streams := genSemStreams(rng)
-		query := genMetricQuery(rng, mgen{simple: true, streams: streams})
+		query := genMetricQuery(rng, mgen{simple: true, streams: streams, extraFns: true})
 		script, err := logql_parser.Parse(query)
 		if err != nil {
 			r.Count("sem:parse-error")
@@ -306,9 +306,6 @@ func c08Sem(r *h.Result, rng *h.Rng, n int) error {
 			cases[i]["class"] = class
 			r.Case("sem:"+fmt.Sprint(cases[i]["query"], cases[i]["ctx"], i), true)
 			key := "C08/sql-differs-from-direct-reading:" + strings.Join(f, ",")
-			if isIn("agg-without-grouping", f) {
-				key = "C08/agg-without-grouping-keeps-streams"
-			}
 			if strings.HasPrefix(class, "proved:") || strings.HasPrefix(class, "theorem-rhs-differs:") {
 				// cannot happen while the theorem and the driver are built from the same definitions
 				key = "C08/proved-class-differs:" + class
